@@ -128,7 +128,7 @@ PROPS = {
         "rules": [("CP", 4, has("decision_nnf::")), ("TS", 7, has("TS-BAL")), ("DP", 3, has("topdown")),
                   ("GL", 3, has("component-cache", "topdown_h:GL11")), ("SP", 10, has("SP1")),
                   ("GL", 1, has("GL3:return-found")), ("RH", 1, has("grow:rehome")),
-                  ("SH", 6, has("decision_nnf::")), ("RN", 5, has("RN4")),
+                  ("SH", 6, has("decision_nnf::")), ("RN", 3, has("RN4")),
                   ("WP", 4, has("update_hash_and_sat_set")), ("PR", 1, has("SATSolver")),
                   ("TD", 4, None), ("VO", 1, vo_sel("decision_nnf", only_label_order=True)),
                   ("EC", 4, None), ("LP", 6, None), ("MK", 0, None), ("VO", 4, has("level-arg")), ("UG", 1, None), ("EM", 2, has("unit_prop"))],
